@@ -26,6 +26,7 @@ def step (toks : List String) : String :=
   | "ising" :: _ => "same"
   | "generic" :: _ => "same"
   | "temper" :: _ => "same"
+  | "temper-grow" :: _ => "same"
   | _ => "bad-op"
 
 def main : IO Unit := run step
